@@ -95,7 +95,7 @@ def run(ctx):
         "file system, terminal and the font-prefix registration are re-attached after deserialisation (not serialised by design)",
     ]
     # ---- whole programs of the composed model, cut into two lines with a checkpoint in between --------
-    texvm_part(ctx, 5000 if ctx.quick else 60000, 808, name="TexVM.whole_programs_checkpointed", cut=True)
+    texvm_part(ctx, 5000 if ctx.quick else 30000, 808, name="TexVM.whole_programs_checkpointed", cut=True)
 
 
 def selftest(ctx):
